@@ -2677,7 +2677,7 @@ fn adjust_mathml_attributes(attrs: &[(String, String)]) -> Vec<(String, String)>
     attrs.iter().map(|(k, v)| if k == "definitionurl" { plain("definitionURL", v) } else { plain(k, v) }).collect()
 }
 
-const SVG_ATTRS: &[&str] = &[
+pub const SVG_ATTRS: &[&str] = &[
     "attributeName", "attributeType", "baseFrequency", "baseProfile", "calcMode", "clipPathUnits", "diffuseConstant", "edgeMode",
     "filterUnits", "glyphRef", "gradientTransform", "gradientUnits", "kernelMatrix", "kernelUnitLength", "keyPoints", "keySplines",
     "keyTimes", "lengthAdjust", "limitingConeAngle", "markerHeight", "markerUnits", "markerWidth", "maskContentUnits", "maskUnits",
@@ -2699,7 +2699,7 @@ fn adjust_svg_attributes(attrs: &[(String, String)]) -> Vec<(String, String)> {
         .collect()
 }
 
-const SVG_TAGS: &[&str] = &[
+pub const SVG_TAGS: &[&str] = &[
     "altGlyph", "altGlyphDef", "altGlyphItem", "animateColor", "animateMotion", "animateTransform", "clipPath", "feBlend",
     "feColorMatrix", "feComponentTransfer", "feComposite", "feConvolveMatrix", "feDiffuseLighting", "feDisplacementMap",
     "feDistantLight", "feDropShadow", "feFlood", "feFuncA", "feFuncB", "feFuncG", "feFuncR", "feGaussianBlur", "feImage", "feMerge",
@@ -2739,7 +2739,7 @@ fn adjust_foreign_attributes(attrs: Vec<(String, String)>) -> Vec<TAttr> {
 // ---------------------------------------------------------------------------------------------
 // the DOCTYPE tables of the "initial" insertion mode
 
-const QUIRKY_PUBLIC_PREFIXES: &[&str] = &[
+pub const QUIRKY_PUBLIC_PREFIXES: &[&str] = &[
     "+//Silmaril//dtd html Pro v0r11 19970101//",
     "-//AS//DTD HTML 3.0 asWedit + extensions//",
     "-//AdvaSoft Ltd//DTD HTML 3.0 asWedit + extensions//",
